@@ -390,10 +390,17 @@ static void Tuple_Concat(var self, var obj) {
   }
 #endif
   
-  size_t i = nitems;
-  foreach (item in obj) {
-    t->items[i] = item;
-    i++;
+  if (self is obj) {
+    /* Concatenated with itself: the items there were when the call began */
+    for (size_t i = 0; i < nitems; i++) {
+      t->items[nitems+i] = t->items[i];
+    }
+  } else {
+    size_t i = nitems;
+    foreach (item in obj) {
+      t->items[i] = item;
+      i++;
+    }
   }
   
   t->items[nitems+objlen] = Terminal;
